@@ -202,6 +202,15 @@ def normalListRaises (stdIsList : Bool) : Bool := stdIsList
 def uniformListRaises (loIsList hiIsList loIsArray hiIsArray : Bool) : Bool :=
   (loIsList || hiIsList) && !(loIsArray || hiIsArray)
 
+/-- A parameter passed as a 0-dimensional numpy array (`np.array(2)`): `force_ndarray` leaves ndarrays
+    untouched, and the classes that read `value.shape[0]` / `len(value)` of the raw parameter (the Gaussian
+    `get_sqrtprec_from_*` dispatch, `infer_len` of plain attributes, `GMRF.prec.setter`) refuse it with an
+    IndexError / TypeError; the families that only do arithmetic with the flattened parameter accept it.
+    (Table by family, for the scale-like parameter; tied by the dtype section of the harness.) -/
+def zeroDimArrayRaises : String → Bool
+  | "gaussian" | "uniform" | "laplace" | "lognormal" | "gmrf" | "lmrf" | "cmrf" => true
+  | _ => false
+
 /-! ### cdf combination rule -/
 inductive CdfRule | product | sum
   deriving DecidableEq, Repr
